@@ -46,7 +46,7 @@ def run(ctx, rep):
     R = csa_run.analyse(ctx)
     bad = [v for v in R['violations'] if v['oblig'] == 'O8-scope']
     for v in bad:
-        rep.bad('R10.3', 'compiler::Compiler::' + v['method'], v['construct'], v['text'], 'src/compiler.rs')
+        rep.bad('R10.3', 'compiler::Compiler::' + v['method'], v['construct'], v['text'], 'src/compiler.rs', key=v['kc'])
     opt = R['optable']
     emitted = {}
     for a in R['arms']:
